@@ -64,6 +64,7 @@ fn main() {
         "C11" => props::c11::run(cx),
         "C12" => props::c12::run(cx),
         "C13" => props::c13::run(cx),
+        "C14" => props::c14::run(cx),
         "C15" => props::c15::run(cx),
         "C16" => props::c16::run(cx),
         "C17" => props::c17::run(cx),
